@@ -518,11 +518,12 @@ def _transport(td, save, load, fmt, target, stem='obj'):
 
 
 def _eq_usable(a):
-    """is `==` defined for this kind of object at all?  (dict values that are arrays make `dict == dict` raise)"""
+    """is `==` able to recognise an equal twin of this object at all?  The twin is a pure-Python pickle copy (no shared
+    value objects).  `==` cannot when a `descriptors` value is an array (dict == dict raises) or when NaNs are present."""
     try:
         with warnings.catch_warnings():
             warnings.simplefilter('ignore')
-            return bool(a == a.copy()) is True
+            return (a == pickle.loads(pickle.dumps(a))) is True
     except Exception:
         return False
 
@@ -723,7 +724,7 @@ def orc_rdms(case):
         return r
     if _eq_usable(obj) and not (got == obj):
         return f'{label}: all fields are equal but `loaded == original` is False'
-    if obj.n_cond >= 2 and not np.isnan(np.asarray(obj.pattern_descriptors['index'], dtype=float)).any():
+    if obj.n_cond >= 2:
         return _cmp_rdms(vars(_followup_rdms(obj)), _followup_rdms(got), label + ' after subset_pattern+subset')
     return None
 
@@ -767,7 +768,7 @@ def orc_dataset(case):
     return None
 
 
-def _model_save(model, via):
+def _model_save(model):
     from rsatoolbox.io.hdf5 import write_dict_hdf5
     from rsatoolbox.io.pkl import write_dict_pkl
 
@@ -795,7 +796,7 @@ def orc_model(case):
     with warnings.catch_warnings():
         warnings.simplefilter('ignore')
         with tempfile.TemporaryDirectory() as td:
-            got = _transport(td, _model_save(m, case['fmt']), _model_load, case['fmt'], case['target'])
+            got = _transport(td, _model_save(m), _model_load, case['fmt'], case['target'])
     return _unchanged(snap, m, label) or _cmp_model(m, got, label)
 
 
@@ -975,10 +976,8 @@ def _tree(path, fmt):
     else:
         with open(path, 'rb') as f:
             d = pickle.load(f)
-        try:
-            extra = f.read()
-        except ValueError:
-            extra = b''
+            if f.read():
+                names.add('<trailing bytes after the pickle>')
 
         def walk(dd, prefix):
             for k, v in dd.items():
@@ -986,10 +985,6 @@ def _tree(path, fmt):
                 if isinstance(v, dict):
                     walk(v, f'{prefix}/{k}')
         walk(d, '')
-        with open(path, 'rb') as f:
-            pickle.load(f)
-            if f.read():
-                names.add('<trailing bytes after the pickle>')
     return names
 
 
@@ -1221,8 +1216,6 @@ def tier_c(run, thorough):
         for mkind in MODEL_KINDS:
             for n_cond in (3, 5):
                 for name in ('layer7', USTR, 'a b/c'):
-                    if '/' in name and fmt == 'hdf5' and False:
-                        continue
                     for target in (('path', 'file', 'bytesio') if (thorough or name == 'layer7') else ('path',)):
                         bd.check(orc_model, dict(mkind=mkind, n_cond=n_cond, name=name, fmt=fmt, target=target, i=2),
                                  'generic', function='model_from_dict')
